@@ -498,7 +498,7 @@ Definition geom_b (c : cfg) (s : st) : bool :=
   (k0 c <? W64) && (k1 c <? W64) &&
   (seg c mod MI_SEGMENT_SIZE =? 0) && (0 <? seg c) && (seg c + MI_SEGMENT_SIZE <? 2 ^ 63) &&
   (seg c <=? pgaddr c) && (pgaddr c <? pstart c) &&
-  (pstart c + psize c <=? seg c + MI_SEGMENT_SIZE) && (0 <? pgaddr c).
+  (pstart c + psize c <=? seg c + MI_SEGMENT_SIZE) && (0 <? pgaddr c) && (bsz c <? W32).
 
 (* the strong invariant, executable: the three lists are complete (no cut), duplicate free,
    pairwise disjoint, inside the capacity, and the counters agree *)
